@@ -38,22 +38,38 @@ Definition oracle_req (r0 : hres) (exhaust : bool) (ds : list bool) (obs : list 
   (if Nat.eqb nreads n1 then [] else [3%N]) ++
   (if Nat.eqb nexhausts (if exhaust then n1 else 0) then [] else [4%N]).
 
-(* ---- response media: the render cache is transparent *)
-Record pspec := { q_text : option nat; q_data : option nat; q_media : option nat }.
-Definition qinit : pspec := {| q_text := None; q_data := None; q_media := None |}.
+(* ---- response media.  Assigning resp.media binds the response to that object; the body is
+   produced from the content the object has when a render first needs it, and is then FIXED until
+   the next assignment to resp.media - any assignment, including of the same object again, makes
+   the next render serialize the object's then-current content.  An in-place amendment WITHOUT a
+   new assignment does not change the body (by design: media is serialized at most once per
+   assignment).  No cache of bytes appears here, only the content version that was fixed. *)
+Record pspec := { q_text : option nat; q_data : option nat; q_media : option nat;
+                  q_fixed : option nat;      (* content version fixed by the first render *)
+                  q_muts : list nat }.
+Definition qinit : pspec :=
+  {| q_text := None; q_data := None; q_media := None; q_fixed := None; q_muts := [] |}.
 
 Definition qstep (s : pspec) (o : rop) : pspec * option body :=
   match o with
-  | SetMedia v => ({| q_text := q_text s; q_data := q_data s; q_media := v |}, None)
-  | SetText t => ({| q_text := t; q_data := q_data s; q_media := q_media s |}, None)
-  | SetData d => ({| q_text := q_text s; q_data := d; q_media := q_media s |}, None)
+  | SetMedia v => ({| q_text := q_text s; q_data := q_data s; q_media := v; q_fixed := None;
+                      q_muts := q_muts s |}, None)
+  | SetText t => ({| q_text := t; q_data := q_data s; q_media := q_media s; q_fixed := q_fixed s;
+                     q_muts := q_muts s |}, None)
+  | SetData d => ({| q_text := q_text s; q_data := d; q_media := q_media s; q_fixed := q_fixed s;
+                     q_muts := q_muts s |}, None)
+  | Mutate x => ({| q_text := q_text s; q_data := q_data s; q_media := q_media s;
+                    q_fixed := q_fixed s; q_muts := x :: q_muts s |}, None)
   | Render =>
-    (s, Some match q_text s, q_data s, q_media s with
-             | Some t, _, _ => BText t
-             | None, Some d, _ => BData d
-             | None, None, Some v => BMedia v
-             | None, None, None => BNone
-             end)
+    match q_text s, q_data s, q_media s with
+    | Some t, _, _ => (s, Some (BText t))
+    | None, Some d, _ => (s, Some (BData d))
+    | None, None, None => (s, Some BNone)
+    | None, None, Some x =>
+      let v := match q_fixed s with Some v => v | None => version (q_muts s) x end in
+      ({| q_text := None; q_data := None; q_media := Some x; q_fixed := Some v;
+          q_muts := q_muts s |}, Some (BMedia x v))
+    end
   end.
 
 Fixpoint qrun (s : pspec) (ops : list rop) : list (option body) :=
@@ -69,13 +85,13 @@ Definition body_eqb (a b : option body) : bool :=
   match a, b with
   | None, None => true
   | Some BNone, Some BNone => true
-  | Some (BText x), Some (BText y) | Some (BData x), Some (BData y)
-  | Some (BMedia x), Some (BMedia y) => Nat.eqb x y
+  | Some (BText x), Some (BText y) | Some (BData x), Some (BData y) => Nat.eqb x y
+  | Some (BMedia x v), Some (BMedia y w) => Nat.eqb x y && Nat.eqb v w
   | _, _ => false
   end.
 
-(* oracle on an observed response session: 1 bodies differ from the cache-free reading;
-   2 more serializations than media assignments *)
+(* oracle on an observed response session: 1 bodies differ from the reading above (in particular
+   a stale rendering after a re-assignment); 2 more serializations than media assignments *)
 Definition oracle_resp (ops : list rop) (obs : list (option body)) (nser : nat) : list N :=
   (if list_eqb body_eqb obs (qrun qinit ops) then [] else [1%N]) ++
   (if Nat.leb nser (count_setmedia ops) then [] else [2%N]).
